@@ -21,7 +21,12 @@ def tx_trace(tx, rng):
     st, keep, raw = unsignx.from_enc_tx(tx)
     t = {"kind": "tx", "tx": unsignx.tx_rec(st), "keep": list(keep), "parsed": False, "out": unsignx.tx_rec(st),
          "keepout": [], "raw": [], "raw2": [], "rawv": [], "code": 0, "contacted": False}
-    out = real_unsign(raw.hex())
+    try:
+        out = real_unsign(raw.hex())
+    except Exception:
+        # a decodable transaction the code refuses: an observation (nothing was relayed), judged by TLC
+        t["raw"], t["raw2"], t["rawv"] = [256], [256], [256]
+        return t, False
     t["raw"] = list(out)
     try:
         ost, okeep = unsignx.parse_tx(out)
